@@ -18,10 +18,11 @@
    is the Go loop that keeps calling next() at end of input.  [OutOfFuel] is the budget of
    [run]; [OutOfModel] is an error item at a negative position (the token record has N).
 
-   The model describes the code AFTER the three repairs proposed in notes/pending/
-   (C05-lexcss-eof, C05-headerparam-eof, C05-soydocparam-eof): the scans of lexCss and of
-   lexHeaderParam's type stop with an error item at end of input, and lexSoyDocParam
-   emits the identifier instead of stepping back when the input ends.
+   The model describes the code with the three scanner repairs this check proposed
+   (notes/applied/C05-lexcss-eof, C05-headerparam-eof, C05-soydocparam-eof; in /repo as
+   08a5312, 60ff4a5, 718d4aa): the scans of lexCss and of lexHeaderParam's type stop with
+   an error item at end of input, and lexSoyDocParam emits the identifier instead of
+   stepping back when the input ends.
 
    unicode.IsLetter / unicode.IsDigit are Section variables; for execution they are
    instantiated with the tables tablegen evaluates over all of 0..0x10FFFF
@@ -585,7 +586,7 @@ Definition scan_number (l : lx) : outcome (N * bool * lx) :=
   if hex then
     if hasSign then Ok (itemInteger, false, l1)
     else
-      '(_, l2) <- accept_run num_hex_prefix l1 ;;
+      let l2 := set_pos l1 (l_pos l1 + num_hex_prefix_len) in        (* l.pos += 2 *)
       '(some, l3) <- accept_run hex_digits_set l2 ;;
       if negb some then Ok (itemInteger, false, l3)
       else
